@@ -75,8 +75,7 @@ def single_defs(f: Func) -> Dict[str, ast.expr]:
             # no self reference; no calls with side effects assumed pure readers
             if name in norm.names_in(e):
                 continue
-            if any(isinstance(x, (ast.Yield, ast.YieldFrom, ast.Await, ast.Lambda, ast.ListComp, ast.GeneratorExp,
-                                  ast.SetComp, ast.DictComp)) for x in ast.walk(e)):
+            if any(isinstance(x, (ast.Yield, ast.YieldFrom, ast.Await, ast.Lambda, ast.NamedExpr)) for x in ast.walk(e)):
                 continue
             env[name] = e
     return env
